@@ -19,6 +19,12 @@ def run(tier, seed):
                        timeout=300, expect="violation")
     if not r["violated"]:
         raise vlib.Broken("the bad-shift variant of MemPoolLocal is not rejected: the invariants are vacuous")
+    vlib.tlc_check(chk, "PartialBucket: merging the incomplete buckets that destroyed local pools hand back (append / cut a complete bucket / remainder) as coded, exhaustive",
+                   os.path.join(d, "PartialBucket.tla"), os.path.join(d, "PartialBucketMC.cfg"), timeout=300)
+    r = vlib.tlc_check(chk, "PartialBucket with the remainder counted with the wrong sign (defect D6; must be violated)", os.path.join(d, "PartialBucket.tla"),
+                       os.path.join(d, "PartialBucketSignBug.cfg"), timeout=300, expect="violation")
+    if not r["violated"]:
+        raise vlib.Broken("the sign-bug variant of PartialBucket is not rejected: the invariants are vacuous")
     optsets = [("nes=%d" % n, "mem=%d" % m) for m in (0, 1, 2, 3) for n in (0, 1, 2)]
     # tasklet descriptors freed by an external thread, and live ones next to memory-pool stacks (tiny buckets)
     optsets += [("nes=%d" % n, "mem=%d" % m, "desc=1") for m in (2, 3) for n in (0, 1, 2)]
